@@ -184,6 +184,11 @@ class Network:
             # This may just be an address update
             known = self.verified_by_public_key_bin.get(peer.public_key.key_to_bin(), None)
             if known:
+                for interface, address in peer.addresses.items():
+                    previous = known.addresses.get(interface)
+                    if previous is not None and previous != address:
+                        # The peer moved: the old address may no longer be answered with this peer.
+                        self.reverse_ip_lookup.pop(previous, None)
                 known.addresses.update(peer.addresses)
                 return
             if any(address in self._all_addresses for address in peer.addresses.values()):
